@@ -67,7 +67,8 @@ def check_case(run, case, tier='quick'):
     import random
     rng = random.Random(case['hseed'])
     name, path = gstream.materialise(case['spec'], 'c08')
-    sn = session.new_session_name('c08')
+    # session names are free text: dates, versions, host names ... (dots, letters of '.sav')
+    sn = session.new_session_name('c08') + rng.choice(['', '', '.02', '.run.a', '_v', '.s'])
     try:
         flags = gstream.flags_of(case)
         lang = oracles.Language(oracles.Disk(path), flags['skip_brute'], flags['skip_case'])
@@ -179,14 +180,32 @@ def check_case(run, case, tier='quick'):
                 if quit_:
                     saved.append(pops[-1][1])
                     sv = session.read_sav(sn)
-                    got = sv.getfloat('guessing_info', 'max_probability')
-                    run.ev('SAVE')
-                    if got != pops[-1][1]:
-                        run.violation('saved max_probability differs from the probability of the pre-terminal popped when the quit was noticed', case,
-                                      observed=repr(got), expected=repr(pops[-1][1])); return
+                    if not sv.has_section('guessing_info'):
+                        # the save file is not where this harness looks for it (<session>.sav next to the program): where the tool keeps it is its own
+                        # business; whether the session resumes correctly is judged below from what the resumed runs emit
+                        run.ev('save_file_not_found_under_expected_name')
+                    else:
+                        got = sv.getfloat('guessing_info', 'max_probability')
+                        run.ev('SAVE')
+                        if got != pops[-1][1]:
+                            run.violation('saved max_probability differs from the probability of the pre-terminal popped when the quit was noticed', case,
+                                          observed=repr(got), expected=repr(pops[-1][1])); return
                     remaining = max(2, len(U) - sum(len(x[0]) for x in runs) + len(runs))
                 if last:
                     break
+                if quit_ and rng.random() < 0.3 and len(U) >= 4:
+                    # between this quit and the resume another session on the same ruleset, whose name differs in the last character only, is started and quit
+                    sib = sn[:-1] + ('3' if sn[-1] != '3' else '4')
+                    k2 = rng.randint(1, len(U) - 1)
+                    f2 = {}
+                    def trig2(ev, ctx, k2=k2, f2=f2):
+                        if ev[0] == 'POP' and ev[1] == k2 and 'x' not in f2:
+                            f2['x'] = ctx.deliver('q')
+                    try:
+                        session.run_main(['-r', name, '-s', sib] + argv[4:], trigger=trig2, max_guesses=4 * est + 1000)
+                        run.ev('sibling_sessions_interleaved')
+                    finally:
+                        session.drop_session(sib)
             if runs and not runs[-1][1]:
                 ok = judge(run, case, U, runs, saved, f'history via main() cuts={[len(x[0]) for x in runs]}')
                 run.ev('histories'); run.add_to_set('history_shapes', repr([len(x[0]) for x in runs][:4]))
